@@ -385,7 +385,11 @@ pub fn run_mt(prog: &Program, cfg: RunCfg) -> Trace {
     };
     quiet(15, 3000);
     log::log(K::Phase("settled"));
-    rt.block_on(cleanup(vec![]));
+    // bounded: after a watchdog the registry lock may be held for good
+    let cleaned = rt.block_on(async { tokio::time::timeout(Duration::from_secs(10), cleanup(vec![])).await.is_ok() });
+    if !cleaned {
+        clients_outcome = Outcome::StepCap;
+    }
     quiet(5, 1000);
     log::log(K::Phase("end"));
     let clients_started = env.clients_started.load(Ordering::SeqCst);
